@@ -89,6 +89,20 @@ func ValidEntry(s string) bool {
 	return err == nil
 }
 
+// ValidEntryWS is ValidEntry for entries that may end in blanks or tabs (only indentation is
+// insignificant in an assembly file; trailing white space belongs to the expression).
+func ValidEntryWS(s string) bool {
+	core := strings.TrimRight(s, " \t")
+	if core == s {
+		return ValidEntry(s)
+	}
+	if !ValidEntry(core) {
+		return false
+	}
+	_, err := syntax.Parse(s, syntax.PerlX|syntax.ClassNL)
+	return err == nil
+}
+
 func pick(t *rapid.T, label string, lists ...[]string) string {
 	n := 0
 	for _, l := range lists {
